@@ -49,6 +49,9 @@ func ctlJobs(tier string) []Job {
 					if h == "fresh" && !(c == "close" || c == "add-close" || c == "close||add" || c == "close||close") {
 						continue // quick: nothing-added-yet only with the programs in which the first Add matters
 					}
+					if h == "unmount" && !(c == "close" || c == "close||close" || c == "list-close" || c == "add||remove") {
+						continue // quick: the unmount history with four programs
+					}
 					if h == "movein" && (c == "add-close" || c == "remove-close" || c == "list-close" || c == "close||remove") {
 						continue // quick: the move-in history with half of the programs
 					}
